@@ -40,8 +40,26 @@ def run(ctx):
     exprs, plans = [], []
     fig = plt.figure()
     axes = fig.add_subplot()
+    special = {4: [3, 5], 9: [5, 4, 3], 14: [7, 5, 4, 4], 19: [3, 4, 5, 4]}
     for n in range(n_ds):
-        d = gen.any_dataset(rng, gen.FAMILIES[n % len(gen.FAMILIES)])
+        fam = gen.FAMILIES[n % len(gen.FAMILIES)]
+        if n in special:
+            # meshes mixing vertex counts whose coordinate total is a multiple of the cell count (3 + 5 (+ 4 ...) sides):
+            # cutting the coordinates into equal chunks would look plausible
+            nodes, faces = [], []
+            for m_, sides in enumerate(special[n]):
+                base = len(nodes)
+                ring = {3: [(0, 0), (6, 0), (0, 6)], 4: [(0, 0), (6, 0), (6, 6), (0, 6)], 5: [(0, 0), (6, 0), (8, 4), (3, 8), (-2, 4)],
+                        7: [(0, 0), (4, -2), (8, 0), (9, 4), (6, 8), (2, 8), (-1, 4)]}[sides]
+                nodes += [(x + 16 * m_, y) for x, y in ring]
+                faces.append(list(range(base, base + sides)))
+            d = gen.ugrid(rng, mesh=(nodes, faces), invalid=False, supplied=set())
+            fam = None
+        # every other round has a self-intersecting cell (dropped by the convention: a cell without geometry) in the
+        # conventions that store their cell corners
+        if fam is not None:
+            kw = {'invalid': (n // len(gen.FAMILIES)) % 2 == 0} if fam != 'cf1d' else {}
+            d = gen.any_dataset(rng, fam, **kw)
         ds = d.ds
         gdims = d.spec['kinds']['face']
         with warnings.catch_warnings():
